@@ -187,7 +187,8 @@ def _leaf_ops(path, f, N, full):
         for body in itertools.product("naz", repeat=len(src)):
             out.append(("pop", path, src, body))
     out.append(("shaperef", path))
-    for s, e, st, ab in [(0, N, 1, False), (0, N, 2, False), (1, N + 1, 1, True), (0, N, 1, True)]:
+    for s, e, st, ab in [(0, N, 1, False), (0, N, 2, False), (1, N + 1, 1, True), (0, N, 1, True),
+                         (N - 1, -1, -1, False), (N - 1, -1, -2, False), (N - 1, -1, -1, True)]:     # downwards too
         out.append(("rangeref", path, s, e, st, ab))
     if f.coords and max(f.coords) < N:
         out.append(("updc", path, "inc"))
